@@ -24,16 +24,16 @@ import "k8s.io/apimachinery/pkg/util/sets"
 // initialisation), for the external verification harness. Built only with -tags verif.
 func VerifTables() map[string][]string {
 	return map[string][]string{
-		"capsBaseline":             capabilities_allowed_1_0.List(),
-		"capAll":                   {capabilityAll},
-		"capsRestrictedAdd":        {capabilityNetBindService},
-		"sysctls0":                 sysctlsAllowedV1Dot0.List(),
-		"sysctls27":                sysctlsAllowedV1Dot27.List(),
-		"sysctls29":                sysctlsAllowedV1Dot29.List(),
-		"sysctls32":                sysctlsAllowedV1Dot32.List(),
-		"selinux0":                 sets.List(selinuxAllowedTypes1_0),
-		"selinux31":                sets.List(selinuxAllowedTypes1_31),
-		"seccompPodAnnKey":         {annotationKeyPod},
+		"capsBaseline":              capabilities_allowed_1_0.List(),
+		"capAll":                    {capabilityAll},
+		"capsRestrictedAdd":         {capabilityNetBindService},
+		"sysctls0":                  sysctlsAllowedV1Dot0.List(),
+		"sysctls27":                 sysctlsAllowedV1Dot27.List(),
+		"sysctls29":                 sysctlsAllowedV1Dot29.List(),
+		"sysctls32":                 sysctlsAllowedV1Dot32.List(),
+		"selinux0":                  sets.List(selinuxAllowedTypes1_0),
+		"selinux31":                 sets.List(selinuxAllowedTypes1_31),
+		"seccompPodAnnKey":          {annotationKeyPod},
 		"seccompContainerAnnPrefix": {annotationKeyContainerPrefix},
 	}
 }
